@@ -274,7 +274,7 @@ def eval_monad_range(a, backend):
     """
     np_backend = backend.np
     if isinstance(a, str):
-        return ''.join(bknp.unique(backend.str_to_chr_arr(a)))
+        return ''.join(dict.fromkeys(a))
     elif np_backend.isarray(a):
         dtype_kind = backend.get_dtype_kind(a)
         if dtype_kind != 'O' and a.ndim > 1:
